@@ -12,6 +12,7 @@ pub mod c13;
 pub mod c16;
 pub mod c21;
 pub mod dbg;
+pub mod c22;
 pub mod c27;
 pub mod c31;
 pub mod c32;
@@ -34,6 +35,7 @@ pub fn dispatch(id: &str, args: &Args) -> i32 {
         "C14" => drive_main(&c13::C14, args),
         "C16" => drive_main(&c16::C16, args),
         "C21" => drive_main(&c21::C21, args),
+        "C22" => drive_main(&c22::C22, args),
         "C27" => drive_main(&c27::C27, args),
         "C31" => drive_main(&c31::C31, args),
         "C32" => drive_main(&c32::C32, args),
